@@ -61,6 +61,10 @@ def _sig(f: FuncInfo) -> list[tuple[str, str, str]]:
 
 
 def run(ctx: Context) -> None:
+    from ..load import Program
+
+    # translation validation compares the files as written: no alpha-normalisation of locals
+    ctx = Context(Program(ctx.prog.root, alpha=False), ctx.rep)
     rep, prog = ctx.rep, ctx.prog
     rep.level = "translation_validation"
     rep.explanation = (
